@@ -34,6 +34,7 @@ import (
 //     additionalProperties when that is a schema.
 
 type routeRun struct {
+	lastBool  bool // boolean result of the frame that returned last
 	decisions []bool
 	cursor    int
 	atoms     map[string]bool
@@ -51,6 +52,7 @@ type routeFrame struct {
 	visits map[*ssa.BasicBlock]int
 	ranges map[ssa.Value]int
 	cells  map[*ssa.Alloc]string
+	calls  map[*ssa.Call]bool // answers of inlined boolean helpers
 	depth  int
 }
 
@@ -225,6 +227,11 @@ func (rt *router) callDesc(fr *routeFrame, c *ssa.Call, d int) string {
 }
 
 func (rt *router) evalBool(fr *routeFrame, v ssa.Value) bool {
+	if c, ok := v.(*ssa.Call); ok {
+		if b, known := fr.calls[c]; known {
+			return b // the inlined helper's own answer in this configuration
+		}
+	}
 	switch x := v.(type) {
 	case *ssa.Const:
 		return x.Value != nil && constant.BoolVal(x.Value)
@@ -368,6 +375,15 @@ func (rt *router) simulate(fr *routeFrame) {
 				prev = b
 				b = b.Succs[0]
 			case *ssa.Return:
+				if len(x.Results) == 1 {
+					if bt, ok := x.Results[0].Type().Underlying().(*types.Basic); ok && bt.Kind() == types.Bool {
+						rt.run.lastBool = rt.evalBool(fr, x.Results[0])
+						if fr.depth == 0 {
+							rt.run.ret = fmt.Sprint(rt.run.lastBool)
+						}
+						return
+					}
+				}
 				if fr.depth == 0 {
 					if len(x.Results) > 0 {
 						if bt, ok := x.Results[0].Type().Underlying().(*types.Basic); ok && bt.Kind() == types.Bool {
@@ -437,13 +453,23 @@ func (rt *router) call(fr *routeFrame, c *ssa.Call) {
 		return
 	}
 	if rt.relevant != nil && !rt.relevant(g) {
-		return
+		// boolean predicates of the same receiver (an extracted search loop) are always followed: their
+		// conditions are what the configuration is made of
+		if !(g.Signature.Results().Len() == 1 && g.Signature.Results().At(0).Type().String() == "bool") {
+			return
+		}
 	}
 	nf := &routeFrame{fn: g, phi: map[*ssa.Phi]string{}, phiB: map[*ssa.Phi]bool{}, visits: map[*ssa.BasicBlock]int{}, ranges: map[ssa.Value]int{}, cells: map[*ssa.Alloc]string{}, depth: fr.depth + 1}
 	for _, a := range c.Call.Args {
 		nf.args = append(nf.args, rt.desc(fr, a, 0))
 	}
 	rt.simulate(nf)
+	if g.Signature.Results().Len() == 1 && g.Signature.Results().At(0).Type().String() == "bool" && rt.run.abort == "" {
+		if fr.calls == nil {
+			fr.calls = map[*ssa.Call]bool{}
+		}
+		fr.calls[c] = rt.run.lastBool
+	}
 }
 
 // enumerate runs every consistent configuration once.
